@@ -171,7 +171,9 @@ impl Extras {
         match rng.below(14) {
             0..=2 if !self.wat_packages.is_empty() => {
                 let (kind, pkg) = *rng.pick(&self.wat_packages);
-                let mut mb = fee(rng);
+                // the endless loop runs until the fee reserve is exhausted: keep the reserve small
+                // (0.3 XRD = 6 M cost units, above the 4 M loan) so that it costs ~6 M, not 100 M units
+                let mut mb = if kind == "wat:out_of_cost_units" { ManifestBuilder::new().lock_fee(FAUCET, dec!("0.3")) } else { fee(rng) };
                 // several calls in one transaction now and then (same module instantiated repeatedly)
                 for _ in 0..(if kind == "wat:out_of_cost_units" { 1 } else { rng.range(1, 3) }) {
                     mb = mb.call_function(pkg, "Test", "f", manifest_args!());
